@@ -212,7 +212,12 @@ fn execute_once(plan: &Plan, entropy: u64) -> (RunReport, bool) {
 
 impl<'a> World<'a> {
     fn new(plan: &'a Plan, entropy: u64, dir: PathBuf) -> Self {
-        let path = dir.join("bootstrap_cache.json");
+        // via_peers_args: the file lives in a --bootstrap-cache-dir, under the name the crate derives
+        let path = if plan.via_peers_args {
+            dir.join("custom").join(ant_bootstrap::config::cache_file_name())
+        } else {
+            dir.join("bootstrap_cache.json")
+        };
         let expiry = Duration::from_secs(plan.expiry_s);
         let cfg = BootstrapCacheConfig::empty()
             .with_cache_path(&path)
@@ -274,7 +279,16 @@ impl<'a> World<'a> {
     }
 
     fn new_store(&mut self) -> Option<BootstrapCacheStore> {
-        match BootstrapCacheStore::new(self.cfg.clone()) {
+        let built = if self.plan.via_peers_args {
+            // as antnode does: the config carries another (default) path, the peers arguments name the directory
+            let dir = self.path.parent().expect("custom dir").to_path_buf();
+            let decoy = dir.parent().expect("run dir").join("default-location").join("decoy_cache.json");
+            let args = ant_bootstrap::PeersArgs { bootstrap_cache_dir: Some(dir), ..Default::default() };
+            BootstrapCacheStore::new_from_peers_args(&args, Some(self.cfg.clone().with_cache_path(&decoy)))
+        } else {
+            BootstrapCacheStore::new(self.cfg.clone())
+        };
+        match built {
             Ok(s) => Some(s),
             Err(e) => {
                 self.rep.harness_error = Some(format!("BootstrapCacheStore::new failed: {e}"));
